@@ -315,6 +315,19 @@ Qed.
 Lemma py_prefix_nonneg {A} (k : Z) (l : list A) : (0 <= k)%Z -> py_prefix k l = firstn (Z.to_nat k) l.
 Proof. intros H. unfold py_prefix. destruct (0 <=? k)%Z eqn:E; [reflexivity|apply Z.leb_gt in E; lia]. Qed.
 
+Lemma py_prefix_length_eq {A B} (k : Z) (l1 : list A) (l2 : list B) :
+  length l1 = length l2 -> length (py_prefix k l1) = length (py_prefix k l2).
+Proof. intros H. unfold py_prefix. destruct (0 <=? k)%Z; rewrite !firstn_length, H; reflexivity. Qed.
+
+(* truncation (any setting, also a negative product) keeps the fields aligned *)
+Lemma truncate_wf (c : config) (raw : dataset) : wf_data raw -> wf_data (truncate c raw).
+Proof.
+  intros Hwf. unfold truncate. destruct (nbatches c) as [b|]; [|exact Hwf].
+  intros f Hf. apply in_map_iff in Hf. destruct Hf as (f0 & <- & Hf0). simpl.
+  destruct raw as [|f1 raw]; [destruct Hf0|]. simpl.
+  apply py_prefix_length_eq. rewrite (Hwf f0 Hf0). reflexivity.
+Qed.
+
 Theorem truncation_none (c : config) (raw : dataset) : nbatches c = None -> truncate c raw = raw.
 Proof. intros H. unfold truncate. rewrite H. reflexivity. Qed.
 
@@ -667,6 +680,16 @@ Section Stream.
     - intros j k rows Hj. apply iter_epoch_is_permutation with (k := k); assumption.
     - destruct (iter_keeps s) as [Hc Hd]. specialize (IH (snd (iter s))).
       rewrite Hc, Hd in IH. apply IH; assumption.
+  Qed.
+
+  (* every epoch of a dataset constructed over a well-formed file, for any seed and truncation *)
+  Theorem constructed_stream_epochs (c : config) (n : nat) :
+    wf_data (load (cpath c)) -> (1 <= batch_size c)%Z ->
+    Forall (fun e => forall j k rows, nth_error (truncate c (load (cpath c))) j = Some (k, rows) ->
+                     Permutation (concat (map (batch_field j) e)) rows) (fst (consume n (post_init c))).
+  Proof.
+    intros Hwf Hbs. apply (stream_epochs_are_permutations n (post_init c)); [|exact Hbs].
+    apply truncate_wf. exact Hwf.
   Qed.
 
   (* equal seeds (and equal file, batch size, truncation) give equal streams: the
